@@ -24,6 +24,7 @@ import (
 	"github.com/anyproto/any-sync/commonspace/pubsub/pubsubproto"
 	"github.com/anyproto/any-sync/metric"
 	"github.com/anyproto/any-sync/net/peer"
+	"github.com/anyproto/any-sync/net/streampool"
 	"github.com/anyproto/any-sync/util/crypto"
 )
 
@@ -301,6 +302,37 @@ type gate struct {
 	link *link
 	ch   chan struct{}
 	hit  bool
+}
+
+// gatedPool interposes on the relay engine's private pool (verif hook VerifWrapPool): a
+// chosen stream's subscribe parks exactly at AddTagsCtx, i.e. after its interest has been
+// recorded and before its routing tags exist; nothing is injected, the real pool call
+// follows once the controller releases the gate.
+type gatedPool struct {
+	streampool.StreamPool
+	w *world
+}
+
+func (p *gatedPool) AddTagsCtx(ctx context.Context, tags ...string) error {
+	if l, ok := ctx.Value(linkKey{}).(*link); ok {
+		w := p.w
+		w.mu.Lock()
+		g := w.tagGate
+		var ch chan struct{}
+		if g != nil && g.link == l && !g.hit {
+			g.hit = true
+			ch = g.ch
+		}
+		w.mu.Unlock()
+		if ch != nil {
+			<-ch
+		}
+	}
+	return p.StreamPool.AddTagsCtx(ctx, tags...)
+}
+
+type poolWrapper interface {
+	VerifWrapPool(func(streampool.StreamPool) streampool.StreamPool)
 }
 
 type relayStub struct{ w *world }
